@@ -23,13 +23,12 @@ MANIFEST = dict(
     ref="DESIGN.md section 5, C12",
     technique="Coq proof over a Gallina model + translator-generated tables + model/implementation correspondence run",
     note="Partial: UDP delivery, the 3 s timeout and the kernel's datagram truncation are represented by their effect "
-         "(answer lists, firstn buflen) and exhibited only by the correspondence run. Open finding class "
-         "oversize-reply-truncated (reply longer than the 8192-byte receive buffer loses peers silently). from-link reports "
+         "(answer lists, firstn buflen) and exhibited only by the correspondence run. Assumed about UDP: no datagram payload "
+         "exceeds 65527 bytes (udp_deliverable); the receive buffer regenerated from the source is proved to hold it. from-link reports "
          "no per-tracker message; only its wire traffic and peer count are checked. Trusted: Coq kernel, "
          "tools/rs2v_tracker.py, extraction (ExtrOcamlBasic), hook + harness, the Python tracker simulator and oracle.")
 
 MAGIC = 0x41727101980
-RX_BUF = 8192          # only used to classify the known finding; the oracle itself has no such limit
 HAVE_V6 = None
 
 
@@ -167,6 +166,14 @@ def gen_cases(ctx):
             return
         cases.append({"name": name, "v6": v6, "ih": (ih or bytes(rng.getrandbits(8) for _ in range(20))).hex(), "s1": s1, "s2": s2})
 
+    # --- regression corpus first: replies longer than the former 8192-byte receive buffer (fixed defect: they were cut
+    # silently), up to the largest datagrams UDP can carry
+    add("announce-1363-peers-oversize", [good_connect(rng)], [good_announce(rng, 1363, 6)])
+    add("announce-455-peers-oversize", [good_connect(rng)], [good_announce(rng, 455, 18)], True)
+    add("announce-65000-bytes", [good_connect(rng)], [good_announce(rng, 10830, 6)])
+    add("announce-65000-bytes", [good_connect(rng)], [good_announce(rng, 3610, 18)], True)
+    add("announce-65504-bytes-ipv4-maximum", [good_connect(rng)], [good_announce(rng, 10914, 6)])
+    add("announce-65522-bytes-ipv6-maximum", [good_connect(rng)], [good_announce(rng, 3639, 18)], True)
     # --- deterministic matrix: every announce reply length 0..40, both families
     for v6 in (False, True):
         stride = 18 if v6 else 6
@@ -201,10 +208,7 @@ def gen_cases(ctx):
             t = good_announce(rng, 3, stride)
             t["body"] += "ab" * extra
             add("announce-ragged-%d" % extra, [good_connect(rng)], [t], v6)
-    # replies around and beyond the receive buffer (known finding class beyond it)
-    add("announce-1362-peers-fills-buffer", [good_connect(rng)], [good_announce(rng, 1362, 6)])
-    add("announce-1363-peers-oversize", [good_connect(rng)], [good_announce(rng, 1363, 6)])
-    add("announce-455-peers-oversize", [good_connect(rng)], [good_announce(rng, 455, 18)], True)
+    add("announce-1362-peers-8192-bytes", [good_connect(rng)], [good_announce(rng, 1362, 6)])
 
     # --- random streams
     n_random = ctx.n(1500, 100000)
@@ -271,6 +275,7 @@ class Tracker:
         self.v6, self.s1, self.s2 = v6, s1, s2
         self.phase, self.recv1, self.recv2, self.sent1, self.sent2 = 1, [], [], [], []
         self.conn_id, self.txid1 = None, 0
+        self.send_failed = None      # the OS refused to send a scripted reply (too large for this loopback): case skipped
         self.closed = closed
         if closed:
             self.sock.close()
@@ -305,7 +310,10 @@ class Tracker:
                 rep = build_reply(t, d, self.txid1)
                 self.sent2.append(rep)
                 if rep is not None:
-                    self.sock.sendto(rep, a)
+                    try:
+                        self.sock.sendto(rep, a)
+                    except OSError as e:
+                        self.send_failed = "%d-byte reply: %r" % (len(rep), e)
 
     def close(self):
         if not self.closed:
@@ -323,14 +331,19 @@ class HarnessWorker:
             self.p.stdin.write(("announce %s %s\n" % (lib.hexs(tr.addr), case["ih"])).encode())
             self.p.stdin.flush()
             deadline = time.time() + 60
-            out = None
+            out, acc = None, b""
             fds = [self.p.stdout] + ([] if tr.closed else [tr.sock])
             while time.time() < deadline:
                 r, _, _ = select.select(fds, [], [], 1.0)
                 tr.pump()
                 if self.p.stdout in r:
-                    out = self.p.stdout.readline().decode().rstrip("\n")
-                    break
+                    chunk = os.read(self.p.stdout.fileno(), 1 << 16)
+                    if not chunk:
+                        break
+                    acc += chunk
+                    if acc.endswith(b"\n"):
+                        out = acc.decode().rstrip("\n")
+                        break
             tr.pump()
             if out is None or out == "":
                 out = "DIED (no reply from the harness)"
@@ -481,10 +494,9 @@ def judge(case, tr, peers, failed, crashed):
         if peers is None:
             bad.append("a valid announce reply with %d records was not used" % len(recs))
         elif peers != recs:
-            if len(rep) > RX_BUF and peers == recs[:len(peers)]:
-                key = "oversize-reply-truncated"
-                bad.append("valid reply of %d bytes lists %d peers but only the first %d are reported (reply longer than the %d-byte "
-                           "receive buffer is cut silently)" % (len(rep), len(recs), len(peers), RX_BUF))
+            if len(peers) < len(recs) and peers == recs[:len(peers)]:
+                bad.append("valid reply of %d bytes lists %d peers but only the first %d are reported (the reply was cut silently)"
+                           % (len(rep), len(recs), len(peers)))
             else:
                 extra = [p for p in peers if p not in recs]
                 bad.append("reported peers differ from the reply's records (%d reported, %d records, %d not in the reply)"
@@ -541,6 +553,10 @@ def compare(ctx, case, tr, impl, model):
     rec = case_record(case, tr, impl, model)
     if tr is None or impl.startswith("INFRA"):
         ctx.violation("infrastructure", "tracker simulator / harness failed for case %s: %s" % (case["name"], impl), rec)
+        return
+    if tr.send_failed:
+        ctx.count("skipped_reply_not_sendable_on_this_loopback")
+        ctx.notes.append("case %s skipped: %s" % (case["name"], tr.send_failed))
         return
     try:
         peers, failed, crashed = canon_impl(impl)
@@ -621,6 +637,12 @@ def gen_e2e(ctx):
     rng = ctx.rng
     v6ok = have_v6()
     out = []
+    # regression corpus first: a reply longer than the former 8192-byte buffer, and one near the UDP maximum
+    out.append({"name": "e2e-oversize-1363", "cmd": "announce",
+                "specs": [{"t": "udp", "kind": "valid-oversize", "v6": False, "s1": [good_connect(rng)], "s2": [good_announce(rng, 1363, 6, dup=True)]}]})
+    out.append({"name": "e2e-oversize-65000", "cmd": "announce",
+                "specs": [{"t": "udp", "kind": "valid-oversize", "v6": False, "s1": [good_connect(rng)], "s2": [good_announce(rng, 10830, 6)]},
+                          {"t": "http"}]})
     n = ctx.n(36, 400)
     for i in range(n):
         specs = []
@@ -735,8 +757,6 @@ def judge_e2e(ctx, ec, res):
         rep = next((r for r in tr.sent2 if r is not None), None)
         ok = tr.phase == 2 and rep is not None and tr.recv2 and reply_valid(rep, 1, txid_of(tr.recv2[0]), 20)
         recs = records(rep[20:], 18 if sp["v6"] else 6) if ok else None
-        if recs is not None and len(rep) > RX_BUF:
-            keys.add("oversize-reply-truncated")
         b, _ = judge(case, tr, recs, recs is None, False)
         bad += ["tracker %s: %s" % (tr.addr, x) for x in b]
         if tr.phase == 2:
@@ -829,8 +849,7 @@ def run_e2e(ctx):
             ctx.distinct(repr((ec["cmd"], sorted((sp.get("kind") or sp["t"], sp.get("v6", False)) for sp in ec["specs"]), res["rc"], min(len(want), 40))))
             rec = e2e_record(ec, res, bad)
             if bad:
-                ctx.violation("oracle-failure", "%s: %s" % (ec["name"], "; ".join(bad[:4])), rec,
-                              key=(sorted(keys)[0] if keys else None))
+                ctx.violation("oracle-failure", "%s: %s" % (ec["name"], "; ".join(bad[:4])), rec)
                 continue
             if not translated():
                 continue
@@ -911,7 +930,7 @@ def run(ctx):
     suspects = []
     for i, (c, (tr, impl)) in enumerate(zip(cases, results)):
         try:
-            if tr is None or judge(c, tr, *canon_impl(impl))[0]:
+            if tr is None or (not tr.send_failed and judge(c, tr, *canon_impl(impl))[0]):
                 suspects.append(i)
         except Exception:
             suspects.append(i)
@@ -951,6 +970,10 @@ def run(ctx):
 
 def finish(ctx):
     ctx.assumptions += [
+        "udp_deliverable: no UDP datagram payload exceeds 65527 bytes (16-bit UDP length minus the 8-byte header; 65507 over IPv4) - "
+        "the explicit hypothesis of c12_peers_exactly_the_records / c12_only_the_records_of_the_whole_reply; "
+        "c12_receive_buffer_holds_any_udp_datagram proves the generated RX_BUF_LEN is at least that; replies of 65504 (IPv4) and "
+        "65522 (IPv6) bytes are exercised on loopback",
         "UDP and the kernel are represented by their effect: an answer list per request (None = recv error/timeout) and "
         "truncation of a datagram to the receive buffer (firstn buflen); exhibited only by the correspondence run",
         "send errors (Error::TrackerSend) are not modelled; the closed-port case covers the ECONNREFUSED path on the real socket",
@@ -959,7 +982,8 @@ def finish(ctx):
     ]
     return ctx.finish(
         rule="hook cases: a deterministic matrix (every announce reply length 0..40 for IPv4 and IPv6, every connect reply length "
-             "0..20, each header field perturbed, error action, empty datagram, ragged tails, buffer-filling and oversize replies), "
+             "0..20, each header field perturbed, error action, empty datagram, ragged tails, replies longer than the former 8192-byte buffer "
+             "up to the largest UDP datagrams), "
              "seeded random mostly-valid (60%) and malformed (40%) streams with 0-200 peers, drop patterns of the first k requests, a "
              "closed port; binary cases: torrents/magnets naming 1-3 scripted trackers plus non-UDP, port-less and unparseable URLs. "
              "A case is distinct/non-trivial by (case family, address family, datagrams received per phase, reply lengths capped at "
